@@ -217,7 +217,10 @@ def find(
                     os.path.dirname(e["file"]),
                 )
                 if include_file:
-                    state.insert_file(include_file)
+                    # As for #include, a file that was not parsed yet is
+                    # parsed in the language of the file that includes it.
+                    lang = state.langs[state._get_realpath(e["file"])]
+                    state.insert_file(include_file, lang)
                     state.associate(include_file, file_platform)
                 else:
                     log.warning(
